@@ -135,6 +135,11 @@ func init() {
 		ID: "C10", Pkgs: []string{".", "proj"}, Level: "model_checking",
 		Rule: "one evaluation = one explored path (geometry shape x index of the failing vertex, or SR pair x call history); non-trivial = path ends with all assertions discharged",
 		Opts: []HarnessOpt{{Prefix: "VH_C10_", IfConv: true, MaxUnwind: 40}, {Prefix: "VH_C10_history", Mode: "U", IfConv: true, MaxUnwind: 60, MaxSteps: 50_000_000, Merge: projMerge},
+			{Prefix: "VH_C10_state", Mode: "U", IfConv: true, MaxUnwind: 60, MaxSteps: 50_000_000, Merge: projMerge, ThoroughOnly: true},
+			{Prefix: "VH_C10_state_00", Mode: "U", IfConv: true, MaxUnwind: 60, MaxSteps: 50_000_000, Merge: projMerge},
+			{Prefix: "VH_C10_state_01", Mode: "U", IfConv: true, MaxUnwind: 60, MaxSteps: 50_000_000, Merge: projMerge},
+			{Prefix: "VH_C10_state_07", Mode: "U", IfConv: true, MaxUnwind: 60, MaxSteps: 50_000_000, Merge: projMerge},
+			{Prefix: "VH_C10_state_09", Mode: "U", IfConv: true, MaxUnwind: 60, MaxSteps: 50_000_000, Merge: projMerge},
 			{Prefix: "VH_C10_history_02", Mode: "U", IfConv: true, MaxUnwind: 60, MaxSteps: 50_000_000, Merge: projMerge, ThoroughOnly: true},
 			{Prefix: "VH_C10_history_03", Mode: "U", IfConv: true, MaxUnwind: 60, MaxSteps: 50_000_000, Merge: projMerge, ThoroughOnly: true},
 			{Prefix: "VH_C10_history_04", Mode: "U", IfConv: true, MaxUnwind: 60, MaxSteps: 50_000_000, Merge: projMerge, ThoroughOnly: true},
@@ -144,6 +149,7 @@ func init() {
 			{Prefix: "VH_C10_history_10", Mode: "U", IfConv: true, MaxUnwind: 60, MaxSteps: 50_000_000, Merge: projMerge, ThoroughOnly: true}},
 		Bounds: map[string]string{
 			"geometries": "all eight types, <=2 members x <=2 vertices, collections nested to depth 1 (2 thorough); transformer failing at every vertex index or never",
+			"state step": "one call with a free input from the state left by one concrete call (quick: pairs 00, 01, 07, 09; thorough: all 11); the state compared is everything reachable from the closure, both SRs and the proj package variables",
 			"histories":  "quick: longlat<->merc, axis=neu source (t(p); t(p); u(q); t(q); t(p); fresh t(p)) and longlat+7-parameter datum -> WGS84 (t(p); t(p); fresh t(p)); thorough adds utm->utm, lcc, tmerc/utm with 3- and 7-parameter datums (WGS84 hop), aea in US feet",
 		},
 		Assumptions: []string{"libm functions are uninterpreted symbols: determinism/history-independence proved for every interpretation"},
@@ -207,6 +213,7 @@ func init() {
 			{Prefix: "VH_C03_centroid", Mode: "R", Merge: geomMerge, IfConv: true, MaxUnwind: 16},
 			{Prefix: "VH_C03_area", Mode: "R", Merge: geomMerge, IfConv: true, MaxUnwind: 16},
 			{Prefix: "VH_C03_lemma", Mode: "R", IfConv: true},
+			{Prefix: "VH_C03_area_hole_fixed_shell", Mode: "G", Merge: geomMerge, IfConv: true, MaxUnwind: 16},
 			{Prefix: "VH_C03_area_with_hole", Mode: "G", Merge: geomMerge, IfConv: true, MaxUnwind: 16, ThoroughOnly: true, TimeoutMs: 300_000},
 			{Prefix: "VH_C03_centroid_with_hole", Mode: "R", Merge: geomMerge, IfConv: true, MaxUnwind: 16, ThoroughOnly: true, TimeoutMs: 300_000},
 			{Prefix: "VH_C03_length", Mode: "F"},
@@ -247,11 +254,13 @@ func init() {
 	})
 	reg(&Property{
 		ID: "C14", Pkgs: []string{"."}, Level: "model_checking",
-		Opts: []HarnessOpt{{Prefix: "VH_C14_", IfConv: true, MaxUnwind: 40, Merge: geomMerge}},
+		Opts: []HarnessOpt{{Prefix: "VH_C14_", IfConv: true, MaxUnwind: 40, Merge: geomMerge},
+			{Prefix: "VH_C14_clip_no_shortcut", Mode: "G", IfConv: true, MaxUnwind: 40, Merge: geomMerge}},
 		Rule: "one evaluation = one explored path (line/multi-line, polygonal type, counts) with all coordinates free non-NaN doubles; non-trivial = path ends with all assertions discharged",
 		Bounds: map[string]string{
 			"lines":    "LineString <=3 vertices, MultiLineString of two members; polygonal argument as in C01",
 			"clipper":  "recording stub returning <=2 chains x <=3 vertices, or the real polyclip code where it answers without sweeping",
+			"shortcut": "no_shortcut: two-vertex line with free half-integer coordinates (4-bit) against a fixed square with a square hole, mode G",
 		},
 		Assumptions: []string{"reduced scope: Clip returns exactly the chains the clipper produces (closing vertex appended and stripped again), having sent every member line and every ring; where the pieces lie is the dependency's sweep"},
 		Outside:     []string{"position and total length of the clipped pieces for lines that enter the polygon's bounding box (polyclip's CLIPLINE sweep)"},
